@@ -333,7 +333,18 @@ fn conv_level(t: &mut Tape<'_>, o: &ConvOpts, depth: usize, name: &str) -> CmdSp
         }
         // relations declared through the singular method for the first and the plural method for the rest
         a.plural_builders = t.bool();
+        a.setter_history = t.chance(1, 4);
+        a.decoy_history = t.chance(1, 5);
+        if a.action == Action::SetTrue && !a.is_positional() && a.num_args.is_none() && t.chance(1, 4) {
+            // a flag declared through `num_args(0)` and no action
+            a.num_args = Some((0, 0));
+            a.action_inferred = true;
+        }
     }
+    if t.chance(1, 3) {
+        c.settings.route = t.range(1, 63) as u8;
+    }
+    c.settings.decoy_history = t.chance(1, 5);
     c
 }
 
